@@ -96,3 +96,68 @@ func FormatterOrder(res *fw.Result) error {
 	}
 	return nil
 }
+
+type twoProxy struct {
+	Double func(int) (int, error)
+	Triple func(int) (int, error)
+}
+
+type twoSrv struct{}
+
+func (twoSrv) Both(ctx context.Context, v int) (int, error) {
+	rc, ok := jsonrpc.ExtractReverseClient[twoProxy](ctx)
+	if !ok {
+		return 0, fmt.Errorf("no reverse client")
+	}
+	a, err := rc.Double(v)
+	if err != nil {
+		return 0, fmt.Errorf("Double: %w", err)
+	}
+	b, err := rc.Triple(v)
+	if err != nil {
+		return 0, fmt.Errorf("Triple: %w", err)
+	}
+	return a*1000 + b, nil
+}
+
+type implDouble struct{}
+
+func (implDouble) Double(v int) (int, error) { return 2 * v, nil }
+
+type implTriple struct{}
+
+func (implTriple) Triple(v int) (int, error) { return 3 * v, nil }
+
+// TwoHandlersOneNamespace: WithClientHandler given twice for one namespace registers both objects' methods
+// (as Register called twice on a server does): every one of them is reachable by a reverse call.
+func TwoHandlersOneNamespace(res *fw.Result) error {
+	srv := jsonrpc.NewServer(jsonrpc.WithReverseClient[twoProxy]("Client"))
+	srv.Register("Server", twoSrv{})
+	ts := httptest.NewServer(srv)
+	defer ts.Close()
+	for _, order := range []string{"double-triple", "triple-double"} {
+		opts := []jsonrpc.Option{jsonrpc.WithClientHandler("Client", implDouble{}), jsonrpc.WithClientHandler("Client", implTriple{})}
+		if order == "triple-double" {
+			opts[0], opts[1] = opts[1], opts[0]
+		}
+		var cl struct {
+			Both func(context.Context, int) (int, error)
+		}
+		closer, err := jsonrpc.NewMergeClient(context.Background(), "ws"+strings.TrimPrefix(ts.URL, "http"), "Server", []interface{}{&cl}, nil, opts...)
+		if err != nil {
+			return err
+		}
+		ctx, cancel := context.WithTimeout(context.Background(), 4*time.Second)
+		v, err := cl.Both(ctx, 7)
+		cancel()
+		closer()
+		res.Count("two-handlers-one-namespace")
+		res.Eval(true, []interface{}{"two-handlers-one-namespace", order})
+		if err != nil || v != 14*1000+21 {
+			res.Add(fw.Finding{Kind: "monitor", Signature: "two client handlers in one namespace order=" + order,
+				Detail: fmt.Sprintf("both objects were registered under the namespace, yet not both are reachable by reverse calls: Both(7) = %d, %v", v, err),
+				Case:   map[string]interface{}{"scenario": "two-handlers-one-namespace", "order": order}})
+		}
+	}
+	return nil
+}
